@@ -2,9 +2,13 @@ import MuduoVerif.Model.Poller
 /-!
 Every transition of the dispatch-engine model decomposes into three kinds of atomic moves:
 a user operation (`applyOp`), a *frame* move (only `revents_`, the loop's own bookkeeping
-and non-callback output change) and a guarded callback emission.  An invariant that is
+and plumbing output change) and a guarded callback emission.  An invariant that is
 stable under the three is stable under `step`/`run` — for every history, including
 operations executed inside callbacks.
+
+The relation is parametric in the frame relation: `Reach` (frames = `Frame`: the poll phase and the
+loop's bookkeeping) describes whole histories, `ReachD` (frames = `Quiet`: only the pending-hook list
+and `currentActiveChannel_` change) describes the dispatch phase of one iteration.
 -/
 namespace MuduoVerif.Poller
 open MuduoVerif.Gen.Poller
@@ -13,7 +17,23 @@ def Ev.isCb : Ev → Bool
   | .cb .. => true
   | _ => false
 
-/-- `t` differs from `s` only in `revents_`, loop bookkeeping, and appended non-callback output -/
+def Ev.isAbort : Ev → Bool
+  | .abort _ => true
+  | _ => false
+
+/-- the output a frame move may append: the `poll` call (always with the loop's constant
+time-out), the growth of the result array, an environment violation, a failed assertion -/
+def Ev.isPlumb : Ev → Prop
+  | .wait _ t => t = kPollTimeMs
+  | .grow _ => True
+  | .badEnv => True
+  | .abort _ => True
+  | _ => False
+
+theorem Ev.isPlumb.notCb {e : Ev} (h : e.isPlumb) : e.isCb = false := by
+  cases e <;> simp_all [Ev.isPlumb, Ev.isCb]
+
+/-- `t` differs from `s` only in `revents_`, loop bookkeeping, and appended plumbing output -/
 structure Frame (s t : State) : Prop where
   be : t.be = s.be
   cmap : t.cmap = s.cmap
@@ -23,92 +43,142 @@ structure Frame (s t : State) : Prop where
   ev : ∀ c, (t.chans c).events = (s.chans c).events
   idx : ∀ c, (t.chans c).index = (s.chans c).index
   added : ∀ c, (t.chans c).added = (s.chans c).added
-  out : ∃ l, t.out = s.out ++ l ∧ ∀ e ∈ l, e.isCb = false
+  dead : t.dead = false → s.dead = false
+  out : ∃ l, t.out = s.out ++ l ∧ (∀ e ∈ l, e.isPlumb) ∧ (t.dead = false → ∀ e ∈ l, e.isAbort = false)
+
+/-- `t` differs from `s` only in the pending-hook list and `currentActiveChannel_` -/
+def Quiet (s t : State) : Prop := ∃ h c, t = { s with hooks := h, cur := c }
 
 /-- the emission of a callback event, as `stage` does it -/
 def CbStep (s t : State) : Prop :=
   ∃ c k, s.dead = false ∧ disp k (s.chans c).revents ∧ subscribed k (s.chans c).events ∧
     t = emit s (.cb c k (s.chans c).revents (s.chans c).events)
 
-inductive Reach : State → State → Prop
-  | refl (s) : Reach s s
-  | op (s c k) {t} : Reach (applyOp s c k) t → Reach s t
-  | frame {s s' t} : Frame s s' → Reach s' t → Reach s t
-  | cb {s s' t} : CbStep s s' → Reach s' t → Reach s t
+inductive ReachF (F : State → State → Prop) : State → State → Prop
+  | refl (s) : ReachF F s s
+  | op (s c k) {t} : ReachF F (applyOp s c k) t → ReachF F s t
+  | frame {s s' t} : F s s' → ReachF F s' t → ReachF F s t
+  | cb {s s' t} : CbStep s s' → ReachF F s' t → ReachF F s t
 
-theorem Reach.trans {a b c : State} (h1 : Reach a b) (h2 : Reach b c) : Reach a c := by
+abbrev Reach := ReachF Frame
+abbrev ReachD := ReachF Quiet
+
+theorem ReachF.trans {F} {a b c : State} (h1 : ReachF F a b) (h2 : ReachF F b c) : ReachF F a c := by
   induction h1 with
   | refl => exact h2
   | op s c k _ ih => exact .op s c k (ih h2)
   | frame f _ ih => exact .frame f (ih h2)
   | cb f _ ih => exact .cb f (ih h2)
 
+theorem ReachF.mono {F G : State → State → Prop} (hFG : ∀ s t, F s t → G s t) {a b : State}
+    (h : ReachF F a b) : ReachF G a b := by
+  induction h with
+  | refl => exact .refl _
+  | op s c k _ ih => exact .op s c k ih
+  | frame f _ ih => exact .frame (hFG _ _ f) ih
+  | cb f _ ih => exact .cb f ih
+
+/-- an invariant that is stable under the three atomic moves holds along every history -/
+theorem ReachF.preserves {F} {P : State → Prop}
+    (hop : ∀ s c k, P s → P (applyOp s c k))
+    (hframe : ∀ s t, F s t → P s → P t)
+    (hcb : ∀ s t, CbStep s t → P s → P t)
+    {s t : State} (h : ReachF F s t) (hs : P s) : P t := by
+  induction h with
+  | refl => exact hs
+  | op s c k _ ih => exact ih (hop s c k hs)
+  | frame f _ ih => exact ih (hframe _ _ f hs)
+  | cb f _ ih => exact ih (hcb _ _ f hs)
+
 theorem Frame.rfl' (s : State) : Frame s s :=
-  ⟨rfl, rfl, rfl, rfl, rfl, fun _ => rfl, fun _ => rfl, fun _ => rfl, [], by simp, by simp⟩
+  ⟨rfl, rfl, rfl, rfl, rfl, fun _ => rfl, fun _ => rfl, fun _ => rfl, id, [], by simp, by simp, by simp⟩
 
 theorem Reach.ofFrame {s t : State} (f : Frame s t) : Reach s t := .frame f (.refl t)
 
-theorem frame_emit (s : State) (e : Ev) (h : e.isCb = false) : Frame s (emit s e) :=
-  ⟨rfl, rfl, rfl, rfl, rfl, fun _ => rfl, fun _ => rfl, fun _ => rfl, [e], rfl, by simpa using h⟩
+theorem frame_emit (s : State) (e : Ev) (h : e.isPlumb) (ha : e.isAbort = false) : Frame s (emit s e) :=
+  ⟨rfl, rfl, rfl, rfl, rfl, fun _ => rfl, fun _ => rfl, fun _ => rfl, id, [e], rfl, by simpa using h,
+    by simpa using fun _ => ha⟩
 
 theorem frame_abort (s : State) (w : String) : Frame s (abort s w) :=
-  ⟨rfl, rfl, rfl, rfl, rfl, fun _ => rfl, fun _ => rfl, fun _ => rfl, [.abort w], rfl, by simp [Ev.isCb]⟩
+  ⟨rfl, rfl, rfl, rfl, rfl, fun _ => rfl, fun _ => rfl, fun _ => rfl, by simp [abort], [.abort w], rfl,
+    by simp [Ev.isPlumb], by simp [abort]⟩
 
 theorem frame_revents (s : State) (c r) : Frame s (setChan s c { s.chans c with revents := r }) := by
-  refine ⟨rfl, rfl, rfl, rfl, rfl, ?_, ?_, ?_, [], by simp [setChan], by simp⟩ <;>
+  refine ⟨rfl, rfl, rfl, rfl, rfl, ?_, ?_, ?_, id, [], by simp [setChan], by simp, by simp⟩ <;>
   · intro x; simp only [setChan]; split <;> simp_all
 
 theorem Frame.trans {a b c : State} (f : Frame a b) (g : Frame b c) : Frame a c := by
-  obtain ⟨l1, h1, n1⟩ := f.out
-  obtain ⟨l2, h2, n2⟩ := g.out
+  obtain ⟨l1, h1, n1, d1⟩ := f.out
+  obtain ⟨l2, h2, n2, d2⟩ := g.out
   refine ⟨g.be.trans f.be, g.cmap.trans f.cmap, g.pollfds.trans f.pollfds, g.kernel.trans f.kernel,
     g.blind.trans f.blind, fun c => (g.ev c).trans (f.ev c), fun c => (g.idx c).trans (f.idx c),
-    fun c => (g.added c).trans (f.added c), l1 ++ l2, by rw [h2, h1, List.append_assoc], ?_⟩
-  intro e he
-  rcases List.mem_append.1 he with h | h
-  · exact n1 e h
-  · exact n2 e h
+    fun c => (g.added c).trans (f.added c), fun h => f.dead (g.dead h),
+    l1 ++ l2, by rw [h2, h1, List.append_assoc], ?_, ?_⟩
+  · intro e he
+    rcases List.mem_append.1 he with h | h
+    · exact n1 e h
+    · exact n2 e h
+  · intro hd e he
+    rcases List.mem_append.1 he with h | h
+    · exact d1 (g.dead hd) e h
+    · exact d2 hd e h
+
+theorem Quiet.frame {s t : State} (q : Quiet s t) : Frame s t := by
+  obtain ⟨h, c, rfl⟩ := q
+  exact ⟨rfl, rfl, rfl, rfl, rfl, fun _ => rfl, fun _ => rfl, fun _ => rfl, id, [], by simp, by simp, by simp⟩
+
+theorem ReachD.reach {s t : State} (h : ReachD s t) : Reach s t := ReachF.mono (fun _ _ q => q.frame) h
 
 /-! ### the model's functions are compositions of the three moves -/
 
-theorem reach_foldl_ops (hs : List Hook) (s : State) :
-    Reach s (hs.foldl (fun s h => applyOp s h.c h.op) s) := by
+theorem reach_foldl_ops {F} (hs : List Hook) (s : State) :
+    ReachF F s (hs.foldl (fun s h => applyOp s h.c h.op) s) := by
   induction hs generalizing s with
   | nil => exact .refl s
   | cons h t ih => exact .op s h.c h.op (ih _)
 
-theorem reach_runHooks (s : State) (j k) : Reach s (runHooks s j k) := by
+theorem reachD_runHooks (s : State) (j k) : ReachD s (runHooks s j k) := by
   unfold runHooks
   refine .frame (s' := { s with hooks := s.hooks.filter (fun h => !h.isFor j k) }) ?_ (reach_foldl_ops _ _)
-  exact ⟨rfl, rfl, rfl, rfl, rfl, fun _ => rfl, fun _ => rfl, fun _ => rfl, [], by simp, by simp⟩
+  exact ⟨_, s.cur, rfl⟩
 
-theorem reach_stage (k : Kind) (s : State) (c : Nat) : Reach s (stage k s c) := by
+theorem reachD_stage (k : Kind) (s : State) (c : Nat) : ReachD s (stage k s c) := by
   unfold stage
   by_cases hd : s.dead = true
   · simp [hd]; exact .refl s
   · by_cases hg : disp k (s.chans c).revents ∧ subscribed k (s.chans c).events
     · simp only [hd, hg]
       simp only [Bool.false_eq_true, if_false, and_self, if_true]
-      exact .cb ⟨c, k, by simpa using hd, hg.1, hg.2, rfl⟩ (reach_runHooks _ c k)
+      exact .cb ⟨c, k, by simpa using hd, hg.1, hg.2, rfl⟩ (reachD_runHooks _ c k)
     · simp only [hd, hg]
       simp only [Bool.false_eq_true, if_false]
       exact .refl s
 
-theorem reach_handleEvent (s : State) (c : Nat) : Reach s (handleEvent s c) := by
+theorem reachD_handleEvent (s : State) (c : Nat) : ReachD s (handleEvent s c) := by
   unfold handleEvent
-  exact ((reach_stage .close s c).trans (reach_stage .error _ c)).trans
-    ((reach_stage .read _ c).trans (reach_stage .write _ c))
+  exact ((reachD_stage .close s c).trans (reachD_stage .error _ c)).trans
+    ((reachD_stage .read _ c).trans (reachD_stage .write _ c))
 
-theorem frame_cur (s : State) (c : Option Nat) : Frame s { s with cur := c } :=
-  ⟨rfl, rfl, rfl, rfl, rfl, fun _ => rfl, fun _ => rfl, fun _ => rfl, [], by simp, by simp⟩
-
-theorem reach_dispatch (act : List Nat) (s : State) : Reach s (dispatch s act) := by
+theorem reachD_dispatch (act : List Nat) (s : State) : ReachD s (dispatch s act) := by
   unfold dispatch
   induction act generalizing s with
   | nil => exact .refl s
   | cons c t ih =>
     simp only [List.foldl_cons]
-    exact (Reach.frame (frame_cur s (some c)) (reach_handleEvent _ c)).trans (ih _)
+    exact (ReachF.frame (s' := { s with cur := some c }) ⟨s.hooks, some c, rfl⟩ (reachD_handleEvent _ c)).trans (ih _)
+
+/-- the `revents` field `PollPoller::fillActiveChannels` sees in entry `pfd` -/
+def pollRev (ready : List (Nat × Nat)) (pfd : Int × Nat) : Nat :=
+  if pfd.1 < 0 then 0 else lookupRev ready pfd.1.toNat
+
+theorem pollFill_cons (s : State) (ready) (pfd : Int × Nat) (rest) (n : Nat) (acc) :
+    pollFill s ready (pfd :: rest) (n + 1) acc =
+      if pollActive (pollRev ready pfd : Int) then
+        match s.cmap pfd.1 with
+        | none => (abort s "ch != channels_.end()", acc.reverse)
+        | some c => pollFill (setChan s c { s.chans c with revents := pollRev ready pfd }) ready rest n (c :: acc)
+      else pollFill s ready rest (n + 1) acc := by
+  rfl
 
 theorem frame_pollFill (ready : List (Nat × Nat)) (pfds : List (Int × Nat)) :
     ∀ (s : State) (n : Nat) (acc : List Nat), Frame s (pollFill s ready pfds n acc).1 := by
@@ -119,12 +189,13 @@ theorem frame_pollFill (ready : List (Nat × Nat)) (pfds : List (Int × Nat)) :
     cases n with
     | zero => simp only [pollFill]; exact Frame.rfl' s
     | succ n =>
-      simp only [pollFill]
-      split
-      · split
-        · exact frame_abort s _
-        · exact (frame_revents s _ _).trans (ih _ _ _)
-      · exact ih _ _ _
+      rw [pollFill_cons]
+      by_cases h : pollActive (pollRev ready pfd : Int)
+      · rw [if_pos h]
+        cases hc : s.cmap pfd.1 with
+        | none => exact frame_abort s _
+        | some c => exact (frame_revents s _ _).trans (ih _ _ _)
+      · rw [if_neg h]; exact ih _ _ _
 
 theorem frame_epollFill (ready : List (Nat × Nat)) :
     ∀ (s : State) (acc : List Nat), Frame s (epollFill s ready acc).1 := by
@@ -138,27 +209,39 @@ theorem frame_epollFill (ready : List (Nat × Nat)) :
     · exact frame_abort s _
     · exact (frame_revents s _ _).trans (ih _ _)
 
+theorem frame_wait (s : State) (n : Nat) : Frame s (emit s (.wait n kPollTimeMs)) :=
+  frame_emit s _ (by simp [Ev.isPlumb]) rfl
+
 theorem frame_pollerPoll (s : State) (ready) (nret) : Frame s (pollerPoll s ready nret).1 := by
   unfold pollerPoll
-  split
-  · simp only
+  cases s.be with
+  | poll =>
+    simp only
     split
-    · exact (frame_emit s _ rfl).trans (frame_pollFill _ _ _ _ _)
-    · exact frame_emit s _ rfl
-  · simp only
-    split
-    · exact ((frame_emit s _ rfl).trans (frame_emit _ _ rfl)).trans (frame_abort _ _)
-    · split
-      · have h := frame_epollFill ready (emit s (.wait s.evsize kPollTimeMs)) []
+    · exact (frame_wait s _).trans (frame_pollFill _ _ _ _ _)
+    · exact frame_wait s _
+  | epoll =>
+    simp only
+    by_cases h1 : ready.length > (emit s (.wait s.evsize kPollTimeMs)).evsize ∨ nret ≠ ready.length
+    · rw [if_pos h1]
+      exact ((frame_wait s _).trans (frame_emit _ .badEnv (by simp [Ev.isPlumb]) rfl)).trans (frame_abort _ _)
+    · rw [if_neg h1]
+      by_cases h2 : epHasEvents (nret : Int)
+      · rw [if_pos h2]
+        have h := frame_epollFill ready (emit s (.wait s.evsize kPollTimeMs)) []
+        generalize epollFill (emit s (.wait s.evsize kPollTimeMs)) ready [] = p at h
+        obtain ⟨s1, act⟩ := p
+        simp only at h ⊢
         split
-        · rename_i s1 act heq hfull
-          rw [heq] at h
-          refine ((frame_emit s _ rfl).trans h).trans ?_
-          exact ⟨rfl, rfl, rfl, rfl, rfl, fun _ => rfl, fun _ => rfl, fun _ => rfl, [.grow (epGrowTo s1.evsize)], rfl, by simp [Ev.isCb]⟩
-        · rename_i s1 act heq hfull
-          rw [heq] at h
-          exact (frame_emit s _ rfl).trans h
-      · exact frame_emit s _ rfl
+        · refine ((frame_wait s _).trans h).trans ?_
+          exact ⟨rfl, rfl, rfl, rfl, rfl, fun _ => rfl, fun _ => rfl, fun _ => rfl, id,
+            [.grow (epGrowTo s1.evsize)], rfl, by simp [Ev.isPlumb], by simp [Ev.isAbort]⟩
+        · exact (frame_wait s _).trans h
+      · rw [if_neg h2]; exact frame_wait s _
+
+theorem frame_bookkeeping (s : State) (it : Nat) (act : List Nat) (h : Bool) (c : Option Nat) :
+    Frame s { s with iteration := it, active := act, handling := h, cur := c } :=
+  ⟨rfl, rfl, rfl, rfl, rfl, fun _ => rfl, fun _ => rfl, fun _ => rfl, id, [], by simp, by simp, by simp⟩
 
 theorem reach_iter (s : State) (ready) (nret) : Reach s (iter s ready nret) := by
   unfold iter
@@ -171,10 +254,10 @@ theorem reach_iter (s : State) (ready) (nret) : Reach s (iter s ready nret) := b
     split
     · exact .ofFrame h
     · refine (Reach.ofFrame h).trans ?_
-      refine Reach.frame (s' := { s1 with iteration := s1.iteration + 1, active := act, handling := true }) ?_ ?_
-      · exact ⟨rfl, rfl, rfl, rfl, rfl, fun _ => rfl, fun _ => rfl, fun _ => rfl, [], by simp, by simp⟩
-      · refine (reach_dispatch act _).trans (.ofFrame ?_)
-        exact ⟨rfl, rfl, rfl, rfl, rfl, fun _ => rfl, fun _ => rfl, fun _ => rfl, [], by simp, by simp⟩
+      refine ReachF.frame (s' := { s1 with iteration := s1.iteration + 1, active := act, handling := true }) ?_ ?_
+      · exact frame_bookkeeping s1 _ _ _ s1.cur
+      · refine (reachD_dispatch act _).reach.trans (Reach.ofFrame ?_)
+        exact frame_bookkeeping _ _ _ _ _
 
 theorem reach_step (s : State) (i : In) : Reach s (step s i) := by
   cases i with
@@ -183,7 +266,7 @@ theorem reach_step (s : State) (i : In) : Reach s (step s i) := by
     simp only [step]
     split
     · exact .refl s
-    · exact .ofFrame ⟨rfl, rfl, rfl, rfl, rfl, fun _ => rfl, fun _ => rfl, fun _ => rfl, [], by simp, by simp⟩
+    · exact .ofFrame (Quiet.frame ⟨_, s.cur, rfl⟩)
   | iter ready nret => exact reach_iter s ready nret
 
 theorem reach_run (ins : List In) (s : State) : Reach s (run s ins) := by
@@ -192,22 +275,74 @@ theorem reach_run (ins : List In) (s : State) : Reach s (run s ins) := by
   | nil => exact .refl s
   | cons i t ih => exact (reach_step s i).trans (ih _)
 
-/-- an invariant that is stable under the three atomic moves holds along every history -/
-theorem Reach.preserves {P : State → Prop}
-    (hop : ∀ s c k, P s → P (applyOp s c k))
-    (hframe : ∀ s t, Frame s t → P s → P t)
-    (hcb : ∀ s t, CbStep s t → P s → P t)
-    {s t : State} (h : Reach s t) (hs : P s) : P t := by
-  induction h with
-  | refl => exact hs
-  | op s c k _ ih => exact ih (hop s c k hs)
-  | frame f _ ih => exact ih (hframe _ _ f hs)
-  | cb f _ ih => exact ih (hcb _ _ f hs)
-
 theorem frame_of_cbStep {s t : State} (h : CbStep s t) :
     t.be = s.be ∧ t.cmap = s.cmap ∧ t.pollfds = s.pollfds ∧ t.kernel = s.kernel ∧ t.blind = s.blind ∧
-      t.chans = s.chans := by
+      t.chans = s.chans ∧ t.dead = s.dead := by
   obtain ⟨c, k, _, _, _, rfl⟩ := h
-  exact ⟨rfl, rfl, rfl, rfl, rfl, rfl⟩
+  exact ⟨rfl, rfl, rfl, rfl, rfl, rfl, rfl⟩
+
+/-! ### histories whose inputs satisfy a state-dependent admissibility condition -/
+
+/-- every input of the history satisfies `Q` in the state it is applied to -/
+def Along (Q : State → In → Prop) : State → List In → Prop
+  | _, [] => True
+  | s, i :: rest => Q s i ∧ Along Q (step s i) rest
+
+instance decAlong {Q : State → In → Prop} [∀ s i, Decidable (Q s i)] :
+    ∀ (s : State) (ins : List In), Decidable (Along Q s ins)
+  | _, [] => isTrue trivial
+  | s, i :: rest => @instDecidableAnd _ _ _ (decAlong (step s i) rest)
+
+theorem iter_eq (s : State) (ready) (nret) :
+    iter s ready nret =
+      if s.dead then s
+      else if (pollerPoll s ready nret).1.dead then (pollerPoll s ready nret).1
+      else
+        { dispatch { (pollerPoll s ready nret).1 with
+              iteration := (pollerPoll s ready nret).1.iteration + 1,
+              active := (pollerPoll s ready nret).2, handling := true } (pollerPoll s ready nret).2
+          with cur := none, handling := false } := by
+  unfold iter
+  split
+  · rfl
+  · rfl
+
+/-- induction over histories with the poll phase made explicit: an invariant that is stable under
+operations, the dispatch phase's moves, the loop's bookkeeping, and `Poller::poll` for admissible
+environment input, holds after every admissible history -/
+theorem run_induction {P : State → Prop} {Q : State → In → Prop}
+    (hop : ∀ s c k, P s → P (applyOp s c k))
+    (hquiet : ∀ s t, Quiet s t → P s → P t)
+    (hcb : ∀ s t, CbStep s t → P s → P t)
+    (hpoll : ∀ s ready nret, P s → s.dead = false → Q s (.iter ready nret) → P (pollerPoll s ready nret).1)
+    (hbook : ∀ s it act h c, P s → P { s with iteration := it, active := act, handling := h, cur := c })
+    (ins : List In) : ∀ s, P s → Along Q s ins → P (run s ins) := by
+  induction ins with
+  | nil => intro s hs _; exact hs
+  | cons i rest ih =>
+    intro s hs ha
+    obtain ⟨hq, ha'⟩ := ha
+    refine ih (step s i) ?_ ha'
+    cases i with
+    | op c k => exact hop s c k hs
+    | hook h =>
+      simp only [step]
+      split
+      · exact hs
+      · exact hquiet _ _ ⟨_, s.cur, rfl⟩ hs
+    | iter ready nret =>
+      simp only [step]
+      rw [iter_eq]
+      cases hd : s.dead with
+      | true => simpa using hs
+      | false =>
+        simp only [Bool.false_eq_true, if_false]
+        have h1 := hpoll s ready nret hs hd hq
+        split
+        · exact h1
+        · have h2 := hbook _ ((pollerPoll s ready nret).1.iteration + 1) (pollerPoll s ready nret).2 true
+            (pollerPoll s ready nret).1.cur h1
+          have h3 := ReachF.preserves hop hquiet hcb (reachD_dispatch (pollerPoll s ready nret).2 _) h2
+          exact hbook _ _ _ false none h3
 
 end MuduoVerif.Poller
